@@ -55,6 +55,19 @@ static size_t ent_cb(void *ud, unsigned char *buf, size_t size)
     return d;
 }
 
+/* the OS entropy call, interposed: what the operating system delivers is secret too (system-source path) */
+static uint64_t g_os_seed = 0x05EC;
+ssize_t getrandom(void *buf, size_t len, unsigned int flags)
+{
+    size_t i; uint8_t *p = (uint8_t *)buf;
+    (void)flags;
+    for (i = 0; i < len; ++i) p[i] = (uint8_t)splitmix64(&g_os_seed);
+    SECRET(buf, len);
+    n_secret_bytes += len;
+    return (ssize_t)len;
+}
+int getentropy(void *buf, size_t len) { getrandom(buf, len, 0); return 0; }
+
 /* the deliberately leaky comparison used as positive control (kept out of line so that it really branches) */
 __attribute__((noinline)) static int leaky_compare(const volatile uint8_t *a, const volatile uint8_t *b, size_t n)
 {
@@ -232,6 +245,23 @@ int main(int argc, char **argv)
                 tinyjambu_prng_free(&st);
                 n_calls += 7;
             }
+    }
+    /* ---- PRNG seeded and reseeded from the SYSTEM source: the OS-provided bytes are marked secret inside getrandom() */
+    for (i = 0; i < 2; ++i, ++idx) {
+        tinyjambu_prng_state_t st;
+        int rc;
+        if (!mine(&a, idx)) continue;
+        shape("{\"h\":\"ct\",\"api\":\"prng-system-source\",\"null_callback\":%d}", i);
+        rc = i ? tinyjambu_prng_init_user(&st, NULL, NULL, info, 10) : tinyjambu_prng_init(&st, info, 10);
+        PUBLIC(&rc, sizeof rc);
+        tinyjambu_prng_generate(&st, out, 1100);             /* crosses an automatic reseed from the OS */
+        PUBLIC(out, 1100);
+        rc = tinyjambu_prng_reseed(&st);
+        PUBLIC(&rc, sizeof rc);
+        tinyjambu_prng_generate(&st, out, 40);
+        PUBLIC(out, 40);
+        tinyjambu_prng_free(&st);
+        n_calls += 5;
     }
     emit_stat("evaluations", n_shapes); emit_stat("library_calls_under_taint", n_calls); emit_stat("secret_bytes_marked", n_secret_bytes);
     finish();
